@@ -22,7 +22,7 @@ def run(ctx):
     ctx.floor("R-PRUNE.unlink_loops", 1)
     # insert and the lookups of the LOUDS back end bound the key length alike
     sibling.key_length_limits(ctx, fx, "src/fsa/zipora_trie.rs")
-    ctx.floor("R-SIBLING.keylimit.sites", 2)
+    ctx.floor("R-SIBLING.keylimit.sites", 1)   # one shared helper is a legitimate shape
     # DAWG minimisation: the state signature covers every flag that lookups read
     signature.run(ctx, fx, "src/fsa/dawg.rs", "fsa::dawg::DawgState")
     ctx.floor("R-SIGNATURE.flags", 1)
